@@ -33,6 +33,15 @@ SYNC_FNS = [
 ]
 
 
+def _self_synced(body, w, s):
+    errs = set(A.error_nodes(body))
+    for a in w:
+        r, _ps = A.reach(body, A.succs(body, a), blocked_nodes=set(s) | errs)
+        if any(x in r for x in body.return_nodes()):
+            return False
+    return True
+
+
 def check_sync(ctx):
     for name, floor in SYNC_FNS:
         inst = "C02.sync/" + name.split("::")[-1]
@@ -40,6 +49,24 @@ def check_sync(ctx):
         if body is None:
             continue
         w = ctx.sites(body, V.W_REACHING, inst, floor=floor, what="device-write-reaching calls")
+        s0 = SYNC(body)
+        if w and not _self_synced(body, w, s0):
+            # the fsync may legitimately be hoisted to the callers: then every call site is followed, in its caller, by an
+            # fsync(-reaching call) before that caller returns normally (durability only needs *a* later fsync; the ordering
+            # barriers of the retirement transaction are C03.bracket/barriers)
+            callers = list(ctx.prog.call_sites(name))
+            hoisted = bool(callers)
+            for cb, cn in callers:
+                sy = [x for x in SYNC(cb) if x != cn.id]
+                errs = set(A.error_nodes(cb))
+                r, _ps = A.reach(cb, A.succs(cb, cn.id), blocked_nodes=set(sy) | errs)
+                if any(x in r for x in cb.return_nodes()):
+                    hoisted = False
+            if hoisted:
+                for cb, cn in callers:
+                    sy = [x for x in SYNC(cb) if x != cn.id]
+                    R.follow(ctx, inst, cb, [cn.id], sy, "device write (fsync hoisted to the caller) is followed by fsync before a normal return", b_desc="DiskIO::flush")
+                continue
         s = ctx.sites(body, SYNC, inst, floor=1, what="DiskIO::flush / fsync")
         R.follow(ctx, inst, body, w, s, "device write is followed by fsync before a normal return", b_desc="DiskIO::flush")
     # every other product function that calls a raw write primitive *directly* must be in the table
@@ -782,7 +809,15 @@ def edge_targets_(body, sw, label):
     return [s for (s, l) in body.nodes[sw].succ if l == label]
 
 
+
+def check_recovery_release_len(ctx):
+    """see rules.common.check_recovery_release_len: recovery frees an owned extent with the length of that very generation"""
+    from rules import common as _c
+    _c.check_recovery_release_len(ctx, "C02.recovery-release-len")
+
+
 def check(ctx):
+    check_recovery_release_len(ctx)
     check_worker(ctx)
     check_sync(ctx)
     check_order(ctx)
